@@ -18,6 +18,15 @@ class WeaverModel:
         self.ref = [_fr(x), _fr(y)]
         self.orig = [_fr(x), _fr(y)]
         self.reshaped = False
+        # running bound on the absolute rounding error an IEEE implementation may have accumulated in each axis of
+        # the working / reference series (conditioning: a shift to a large magnitude followed by a normalisation
+        # keeps the large magnitude's ulp as an absolute error)
+        self.err = [0.0, 0.0]
+
+    def _bump(self, axis, factor=1.0):
+        import math
+        vals = [abs(float(v)) for p in (self.w, self.ref) for v in p[axis] if v == v]
+        self.err[axis] = self.err[axis] * factor + 2 * math.ulp(max(vals + [1e-300]))
 
     def copy(self):
         m = WeaverModel.__new__(WeaverModel)
@@ -25,6 +34,7 @@ class WeaverModel:
         m.ref = [list(self.ref[0]), list(self.ref[1])]
         m.orig = [list(self.orig[0]), list(self.orig[1])]
         m.reshaped = self.reshaped
+        m.err = list(self.err)
         return m
 
     # --- helpers ---------------------------------------------------------------------------
@@ -70,34 +80,52 @@ class WeaverModel:
         for p in self._pairs():
             p[0] = p[0] + [2 * p[0][-1] - p[0][-2]]
             p[1] = p[1] + [p[1][0] if periodic else p[1][-1]]
+        self._bump(0, 3.0)
 
     def shift_x(self, s):
         for p in self._pairs():
             p[0] = [v + F(s) for v in p[0]]
+        self._bump(0)
 
     def shift_y(self, s):
         for p in self._pairs():
             p[1] = [v + F(s) for v in p[1]]
+        self._bump(1)
 
     def scale_x(self, c):
         for p in self._pairs():
             p[0] = [v * F(c) for v in p[0]]
+        self._bump(0, abs(float(c)))
 
     def scale_y(self, c):
         for p in self._pairs():
             p[1] = [v * F(c) for v in p[1]]
+        self._bump(1, abs(float(c)))
+
+    def _norm_factor(self, axis, lo, hi):
+        f = 1.0
+        for p in (self.w, self.ref):
+            a = [v for v in p[axis] if v == v]
+            if a and max(a) > min(a):
+                f = max(f, 3.0 * abs(float(hi) - float(lo)) / float(max(a) - min(a)) * max(1.0, 1.0))
+        return f
 
     def normalize_x(self, lo, hi):
+        f = self._norm_factor(0, lo, hi)
         for p in self._pairs(include_orig=True):
             p[0] = self._normalize(p[0], lo, hi)
+        self._bump(0, f)
 
     def normalize_y(self, lo, hi):
+        f = self._norm_factor(1, lo, hi)
         for p in self._pairs(include_orig=True):
             p[1] = self._normalize(p[1], lo, hi)
+        self._bump(1, f)
 
     def repeat(self, r):
         for p in self._pairs():
             p[0], p[1] = self._repeat(p[0], p[1], r)
+        self._bump(0, 3.0 * r)
 
     def truncate_by_value(self, left, right, lr=False, rr=False):
         for p in self._pairs():
@@ -111,9 +139,11 @@ class WeaverModel:
     def reshape_to(self, x, y):
         self.reshaped = True
         self.w = [_fr(x), _fr(y)]
+        self.err = [self.err[0], 0.0]
 
     def restore_original(self):
         """after restore_original the object behaves like a new one on get_original()"""
         self.w = [list(self.orig[0]), list(self.orig[1])]
         self.ref = [list(self.orig[0]), list(self.orig[1])]
         self.reshaped = False
+        self.err = [0.0, 0.0]
